@@ -533,6 +533,12 @@ def choke_rule(rep, prog, cfg):
     sp = [(bb, t) for bb, t in b.calls() if "bytes::buf::buf_mut::BufMut::put_u8" in callee_names(t)]
     rd = [(bb, t) for bb, t in b.calls() if "mpd_protocol::command::Argument::render" in callee_names(t)]
     ok = len(sp) == 1 and len(rd) == 1 and const_int(op_const(sp[0][1]["args"][1])) == 32 and g.dom(sp[0][0], rd[0][0])
+    if not ok and len(sp) == 1 and len(rd) == 1 and const_int(op_const(sp[0][1]["args"][1])) == 32:
+        # render-validate-append form: the argument is rendered into a scratch buffer first; the one space is written right
+        # before the scratch buffer is appended to the command (details: C07.arg-lf)
+        apps = [bb for bb, t in b.calls() if any(n in ("bytes::bytes_mut::BytesMut::extend_from_slice", "bytes::buf::buf_mut::BufMut::put_slice",
+                                                       "bytes::buf::buf_mut::BufMut::put", "bytes::bytes_mut::BytesMut::unsplit") for n in callee_names(t))]
+        ok = len(apps) == 1 and g.dom(rd[0][0], sp[0][0]) and g.dom(sp[0][0], apps[0])
     rep.check(ok, rule, cfg + "/one separator before each argument", b.loc(b.span),
               "add_argument does not write exactly one space (0x20) before the rendered argument: a parameter would not occupy exactly one argument slot")
     # textual impls go through the single escaping routine: covered by C15.render (slice(escape_argument(self)))
